@@ -310,7 +310,7 @@ def stream_line(art, extents, extra_init=(), tids=None, parts=False):
             if isinstance(c, NOP):
                 tids.union(c.in_tensor, c.out_tensor)
 
-    def fminfo(tens, box, offs):
+    def fminfo(tens, box, offs, shape4d=None):
         if tens is None or box is None:
             return "0,0,0,0,0,0,0,0"
         sc = list(box.start_coord)
@@ -318,6 +318,14 @@ def stream_line(art, extents, extra_init=(), tids=None, parts=False):
             sc.insert(0, 0)
         offs = [int(o) for o in offs]
         assert len(offs) == 4, offs
+        if int(sc[0]) > 0:
+            # a box that starts in a later batch (UNPACK / SPLIT along the batch axis, concatenation write): the Spec's
+            # canonical offsets count from (y, x, c) only, the batch offset is a constant displacement of every tile
+            try:
+                strides = tens.get_strides(shape4d)
+                offs = [o + int(sc[0]) * int(strides[0]) for o in offs]
+            except Exception:
+                pass
         # one offset per tile, in NPU tile order (create_feature_map: addresses[idx] += offset)
         return f"{tids.tid(tens)},{sc[-3]},{sc[-2]},{sc[-1]}," + ",".join(map(str, offs))
 
@@ -343,9 +351,11 @@ def stream_line(art, extents, extra_init=(), tids=None, parts=False):
         assert isinstance(cmd, NpuStripe)
         op = cmd.ps.primary_op
         ifm_offs = [int(a) + int(b) for a, b in zip(op.tile_base_offsets_ifm[0], tile_padding_shifts(op, cmd, npu_op))]
-        ifm = fminfo(cmd.ifm_tensor, cmd.ifm_box, ifm_offs)
-        ifm2 = fminfo(cmd.ifm2_tensor, cmd.ifm2_box, op.tile_base_offsets_ifm[1]) if cmd.ifm2_tensor is not None else "0,0,0,0,0,0,0,0"
-        ofm = fminfo(cmd.ofm_tensor, cmd.ofm_box, op.tile_base_offsets_ofm)
+        shp = cmd.ps.ifm_shapes, cmd.ps.ofm_shapes
+        ifm = fminfo(cmd.ifm_tensor, cmd.ifm_box, ifm_offs, shp[0][0] if shp[0] else None)
+        ifm2 = fminfo(cmd.ifm2_tensor, cmd.ifm2_box, op.tile_base_offsets_ifm[1], shp[0][1] if len(shp[0]) > 1 else None) \
+            if cmd.ifm2_tensor is not None else "0,0,0,0,0,0,0,0"
+        ofm = fminfo(cmd.ofm_tensor, cmd.ofm_box, op.tile_base_offsets_ofm, shp[1][0] if shp[1] else None)
         wsrc, ssrc = [], []
         if cmd.weight_tensor is not None:
             wt = cmd.weight_tensor
